@@ -197,7 +197,7 @@ def _index(hkl):
     "C27",
     "friedel",
     sf_case,
-    quick=250,
+    quick=200,
     thorough=5000,
     tol="1e-5 relative to max|F| (complex64)",
     rule=">=2 basis atoms or a non-P centring",
@@ -285,7 +285,7 @@ def check_centering(case, ctx):
     "C27",
     "potential",
     sf_case,
-    quick=200,
+    quick=150,
     thorough=4000,
     tol="max|Im| < 1e-5 max|Re|; synthesis 5e-4 of the sampled potential range",
     rule=">=2 basis atoms or a non-P centring",
@@ -333,7 +333,7 @@ def check_potential(case, ctx):
     "C27",
     "translation",
     translation_case,
-    quick=250,
+    quick=200,
     thorough=5000,
     tol="1e-4 relative to max|F| (positions are float32)",
     rule=">=2 basis atoms or a non-P centring",
